@@ -245,10 +245,21 @@ fn insert_shadow_module(items: &mut Vec<Item>, k: u32, rng: &mut Rng) -> bool {
         "struct" => parse_quote! { #[diplomat::attr(*, rename = #rename)] pub struct #ident { pub verif_a: u8, pub verif_b: i32 } },
         _ => parse_quote! { #[diplomat::attr(*, rename = #rename)] pub enum #ident { VerifA, VerifB } },
     };
-    let m: Item = parse_quote! {
-        #[diplomat::bridge]
-        #[diplomat::abi_rename = #abi]
-        pub mod #modname { #ty }
+    // half of the shadow modules also live in their own namespace (backends with namespacing qualify names)
+    let ns = format!("verifns{}", k);
+    let m: Item = if rng.chance(1, 2) {
+        parse_quote! {
+            #[diplomat::bridge]
+            #[diplomat::abi_rename = #abi]
+            #[diplomat::attr(auto, namespace = #ns)]
+            pub mod #modname { #ty }
+        }
+    } else {
+        parse_quote! {
+            #[diplomat::bridge]
+            #[diplomat::abi_rename = #abi]
+            pub mod #modname { #ty }
+        }
     };
     let at = rng.below(items.len() as u32 + 1) as usize;
     items.insert(at, m);
